@@ -308,7 +308,11 @@ def trackStream (x : MonCtx) (t : STrackSt) (e : Ev) : STrackSt × List Note :=
   match e with
   | .intr => ({ t with ss := { t.ss with im := { t.ss.im with sent := true } } }, [])
   | .poll r =>
-    if isBudgetYield x t r then (t, []) else
+    -- a budget-induced `Pending`: the real `InterruptibleStream` did poll its inner stream and got
+    -- `Pending`, so its `has_pending` / interrupt bookkeeping advanced; the inner stream's own work
+    -- (draining done ids) is redone by the next model poll
+    if isBudgetYield x t r then
+      ({ t with ss := { t.ss with im := (pollNext c.strat t.ss.im .pending).1 } }, []) else
     let p := sipoll c true t.ss
     ({ t with ss := p.1 },
      [.cmp "S-poll" wh (pollText p.2.1 p.2.2 p.1.wake) r.text,
